@@ -118,6 +118,8 @@ def shape_inputs(tier):
     for fam in G.FAMILIES:
         if fam.startswith("nested_"):
             ns = [5, 19, 25] + deep
+        elif fam in ("subtype_chain", "subtype_cycle"):
+            ns = [1, 2, 3, 40, 1000] if quick else [1, 2, 3, 40, 1000, 20000]
         elif fam.startswith("many_"):
             ns = [100, 101, 150] if quick else [99, 100, 101, 500, 3000]
         elif fam in ("non_ascii", "nul_bytes"):
@@ -128,6 +130,10 @@ def shape_inputs(tier):
             ns = [300] + big
         for n in ns:
             out.append((f"shape:{fam}:{n}", G.shape(fam, n), fam, n))
+    for k, f in G.CONTRADICTIONS.items():
+        out.append((f"contradiction:{k}", f(), None, None))
+    for tag, data in G.wide_selects():
+        out.append((tag, data, None, None))
     for k in G.TRIVIAL_KINDS:
         out.append((f"trivial:{k}", G.trivial(k), None, None))
     for k in G.NO_NL_KINDS:
@@ -474,6 +480,36 @@ def run(ctx):
     run_.run(rest, tools_of=lambda tag, fam: ["exppp", "exp2cxx", "exp2python"], timeout=tmo)
     ctx.cov["correspondence"]["mutants"] = {"inputs": nmut, "accepted_by_checker": len(acc), "run_through_backends": len(rest),
                                             "wall_s": round(time.time() - t3, 1)}
+
+    # 3b. semantically contradictory but syntactically valid schemas (one injected fault each) from the shared generator
+    t3b = time.time()
+    faults = []
+    try:
+        from vlib import schema_gen_express as X
+        per = 2 if quick else 12
+        for name in sorted(X.MUTATORS) + sorted(X.FILE_MUTATORS):
+            made = 0
+            for attempt in range(per * 4):
+                if made >= per:
+                    break
+                try:
+                    if name in X.FILE_MUTATORS or attempt % 2:
+                        flt = X.mutate_file(X.gen_file(ctx.rng), name, ctx.rng)
+                    else:
+                        flt = X.mutate(X.gen_schema(ctx.rng, size=ctx.rng.randint(3, 7)), name, ctx.rng)
+                except Exception:
+                    flt = None
+                if flt is None:
+                    continue
+                text, _ = X.render(flt.schema)
+                faults.append((f"fault:{name}:{made}", text.encode(), None, None))
+                made += 1
+            ctx.hist("fault_class", name, made)
+    except ImportError as ex:
+        ctx.broken.append(("fault stream", f"vlib/schema_gen_express.py not importable: {ex}"))
+    if faults:
+        run_.run(faults, timeout=tmo)
+    ctx.cov["correspondence"]["faults"] = {"inputs": len(faults), "wall_s": round(time.time() - t3b, 1)}
 
     # 4. shipped schemas (thorough tier: exp2cxx on the big AP schemas is slow)
     if not quick:
